@@ -4,9 +4,9 @@
    One action per branch of ParseTemplateSource's loop body.  Both readings of the end-of-file
    trigger (`tok.pos.End == lastIndex`: any token, as written / text tokens only) are explored;
    which one IS the code is decided by trace validation (Trace_Cut, drift counters).
-   Also exports the replay cases: every judgeable sequence over GenAlpha up to GenLen x Fmts. *)
+   Also exports the replay cases: every balanced sequence over GenAlpha up to GenLen. *)
 EXTENDS Cut, TLC, Json, SequencesExt
-CONSTANTS MaxLen, MCAlpha, GenLen, GenAlpha, Fmts
+CONSTANTS MaxLen, MCAlpha, GenLen, GenAlpha
 
 VARIABLES names,    \* the template: sequence of catalogue names
           phase,    \* "gen" -> "parse" -> "done"
@@ -53,11 +53,17 @@ SliceInRange == phase = "done" => CutsInRange(toks, st.cuts)
 SameAsFunctional == phase = "done" => LET ps == Pieces(names, MCFmt) IN Out = ModelOut(ps, eofAny)
 
 (* ---- case export ---- *)
+\* (names only, filtered by the cheap structural conditions - a shebang only first, if/end balanced;
+\* checks/c15.py looks the source bytes of each piece up in the exported catalogue, and Trace_Cut
+\* re-decides Defined on every observation and counts what it skips)
 ShebangFirst(ns) == \A i \in DOMAIN ns : ns[i] = "shebang" => i = 1
-\* (names only; checks/c15.py looks the source bytes of each piece up in the exported catalogue)
-Cases == LET SS == {ns \in SeqsUpTo(GenAlpha, GenLen) : ShebangFirst(ns) /\ StructDefined(Pieces(ns, "txt"))}
-             GP == SetToSeq({pr \in SS \X Fmts : ShowOk(Pieces(pr[1], pr[2]), pr[2])})
-         IN [c \in 1..Len(GP) |-> [id |-> c, fmt |-> GP[c][2], names |-> GP[c][1]]]
+RECURSIVE BalNames(_, _, _)
+BalNames(ns, i, dp) == IF i > Len(ns) THEN dp = 0
+                       ELSE IF ns[i] = "if" THEN BalNames(ns, i + 1, dp + 1)
+                       ELSE IF ns[i] = "end" THEN dp > 0 /\ BalNames(ns, i + 1, dp - 1)
+                       ELSE BalNames(ns, i + 1, dp)
+Cases == LET GP == SetToSeq({ns \in SeqsUpTo(GenAlpha, GenLen) : ShebangFirst(ns) /\ BalNames(ns, 1, 0)})
+         IN [c \in 1..Len(GP) |-> [id |-> c, names |-> GP[c]]]
 \* the whole catalogue at every position and format, for the seeded longer sequences assembled by checks/c15.py
 CatEntry(CN, NF, c) == LET ai == ((c - 1) \div (9 * NF)) + 1
                            pi == (((c - 1) \div NF) % 9) + 1
